@@ -265,7 +265,7 @@ Qed.
 
 Lemma gen_construct_axiom ants c :
   GenMM.construct_axiom ants c = construct_axiom ants (st_label c) (st_terms c).
-Proof. unfold GenMM.construct_axiom, construct_axiom. destruct ants; reflexivity. Qed.
+Proof. unfold GenMM.construct_axiom, construct_axiom. cbv zeta. destruct ants; reflexivity. Qed.
 
 Lemma is_SD_SE_b s : is_SD_SE s = (is_SD_b s || is_SE_b s).
 Proof. destruct s; reflexivity. Qed.
@@ -284,7 +284,7 @@ Lemma gen_deconstruct_provable st : match_axiom st = MNone ->
   GenMM.deconstruct_provable st =
   match deconstruct_provable st with Some (ants, l, ts, pf) => Some (ants, SP l ts pf) | None => None end.
 Proof.
-  intros HM. unfold GenMM.deconstruct_provable. destruct st; try reflexivity.
+  intros HM. unfold GenMM.deconstruct_provable. cbv zeta. destruct st; try reflexivity.
   cbn [is_SP_b is_SB_b sb_stmts]. rewrite HM. cbn [maxiom_is_none oassert deconstruct_provable].
   destruct (rev_case ss) as [->|[x [ss' ->]]]; [reflexivity|].
   rewrite rev_app_distr, removelast_last. unfold py_last. rewrite last_last. cbn [rev app].
@@ -298,17 +298,16 @@ Lemma pfn_map {A B} (f : A -> option B) l :
   py_filter_none (map f l) = flat_map (fun x => match f x with Some y => [y] | None => [] end) l.
 Proof. induction l as [|a l IH]; [reflexivity|]. cbn [map py_filter_none flat_map]. destruct (f a); cbn; now rewrite IH. Qed.
 
-Lemma gen_sugar cut x :
-  match (if negb (py_endswith x "is-pattern") then None
-         else if negb (dict_has (String.append (py_drop_last x (String.length "is-pattern")) "is-sugar") cut) then None
-              else Some (String.append (py_drop_last x (String.length "is-pattern")) "is-sugar"))
-  with Some y => [y] | None => [] end = sugar_of cut x.
-Proof.
-  unfold sugar_of, sugar_label, py_endswith, py_drop_last, dict_has.
-  change (String.length "is-pattern") with 10.
-  destruct (Nat.leb 10 (String.length x) && String.eqb (String.substring (String.length x - 10) 10 x) "is-pattern"); [|reflexivity].
-  cbn [negb]. destruct (dict_get _ cut); reflexivity.
-Qed.
+(** the generated `corresponding_sugar_axiom` (whatever its let/beta shape) agrees with [sugar_of] *)
+Ltac solve_sugar cut :=
+  let a := fresh "a" in
+  intros a; cbv beta; unfold sugar_of, sugar_label, py_endswith, py_drop_last, dict_has;
+  change (String.length "is-pattern") with 10;
+  destruct (Nat.leb 10 (String.length a) && String.eqb (String.substring (String.length a - 10) 10 a) "is-pattern")%bool;
+  [|reflexivity];
+  repeat match goal with
+         | |- context [match dict_get ?k cut with _ => _ end] => destruct (dict_get k cut)
+         end; reflexivity.
 
 Lemma ofold_app {A B} (f : list B -> A -> option (list B)) (g : A -> list B) :
   (forall s a, f s a = Some (s ++ g a)%list) -> forall l s, ofold_left f l s = Some (s ++ flat_map g l)%list.
@@ -386,14 +385,14 @@ Proof. destruct l; [reflexivity|]. intros H. exfalso. revert H. apply sort_uniq_
 Lemma gen_supporting cut sd l ts pf ess :
   GenMM.supporting_database_for_provable cut sd (SP l ts pf) ess = supporting sguards_fixed cut [] sd l ts pf ess.
 Proof.
-  unfold GenMM.supporting_database_for_provable, supporting. cbv zeta.
+  unfold GenMM.supporting_database_for_provable, supporting. cbv beta zeta.
   unfold deconstruct_compressed_proof.
-  destruct (proof_labels pf) as [labels|]; [|reflexivity]. cbn [obind].
+  destruct (proof_labels pf) as [labels|]; [|reflexivity]. cbn [obind]. cbv beta zeta.
   match goal with |- context [py_filter_none (map ?f labels)] =>
     replace (py_filter_none (map f labels)) with (flat_map (sugar_of cut) labels)
-      by (symmetry; rewrite pfn_map; apply flat_map_ext; intros a; apply gen_sugar) end.
+      by (symmetry; rewrite pfn_map; apply flat_map_ext; solve_sugar cut) end.
   set (n1 := (labels ++ flat_map (sugar_of cut) labels)%list).
-  rewrite (ofold_app _ (fun a => assoc_default a sd)) by reflexivity. cbn [obind]. unfold assoc_default.
+  try (rewrite (ofold_app _ (fun a => assoc_default a sd)) by reflexivity; cbn [obind]). unfold assoc_default.
   set (n2 := (n1 ++ flat_map (fun a => match assoc_get a sd with Some v => v | None => [] end) n1)%list).
   destruct (map_opt (fun x => dict_get x cut) n2) as [nst|]; [|reflexivity]. cbn [obind].
   rewrite ofold_consts.
@@ -417,10 +416,10 @@ Proof.
     - intros [H|[H|H]]; auto. }
   rewrite ESC. cbn [filter map app].
   destruct Mu as [|m0 Mu'] eqn:EMu.
-  - cbn [nonnil is_nil negb obind app]. reflexivity.
+  - cbn [nonnil is_nil negb obind app]. repeat rewrite <- app_assoc. cbn [app]. reflexivity.
   - assert (HMne : M <> []) by (intros H0; apply sort_uniq_nil in H0; discriminate).
     cbn [nonnil is_nil negb obind app]. unfold py_sorted, mk_mv. rewrite map_id. fold M.
-    destruct M as [|m1 M'] eqn:EM; [congruence|]. cbn [app]. rewrite <- ?app_assoc. reflexivity.
+    destruct M as [|m1 M'] eqn:EM; [congruence|]. repeat rewrite <- app_assoc. cbn [app]. reflexivity.
 Qed.
 
 Lemma let_pair_id {A B} (x : A * B) : (let (r, c) := x in (r, c)) = x.
@@ -481,38 +480,24 @@ Theorem gen_slice_database_agrees db sd incl_ excl_ :
 Proof.
   unfold GenMM.slice_database, slice_database. rewrite <- (step_spec_loop sd incl_ excl_ db [] 0).
   apply gen_loop_ext. intros [cut n] st. unfold step_spec. cbv zeta.
-  assert (Hprov : match_axiom st = MNone -> (is_SP_b st || is_SB_b st) = true ->
-            obind (GenMM.deconstruct_provable st) (fun t__6 =>
-              let '(v_antecedents, v_consequent) := t__6 in
-              obind (if mem (st_label v_consequent) incl_ && negb (mem (st_label v_consequent) excl_) then
-                       obind (GenMM.supporting_database_for_provable cut sd v_consequent v_antecedents) (fun t__7 =>
-                         Some ([] ++ [(st_label v_consequent, t__7)])%list)
-                     else Some []) (fun yielded__ =>
-              Some (dict_set (st_label v_consequent) (GenMM.construct_axiom v_antecedents v_consequent) cut, n, yielded__)))
-            = match deconstruct_provable st with
-              | None => None
-              | Some (ants, l, ts, pf) =>
-                  if mem l incl_ && negb (mem l excl_) then
-                    match supporting sguards_fixed cut [] sd l ts pf ants with
-                    | None => None
-                    | Some s => Some (dict_set l (construct_axiom ants l ts) cut, n, [(l, s)])
-                    end
-                  else Some (dict_set l (construct_axiom ants l ts) cut, n, [])
-              end).
-  { intros EM _. rewrite (gen_deconstruct_provable st EM).
-    destruct (deconstruct_provable st) as [[[[ants l] ts] pf]|]; [|reflexivity]. cbn [obind st_label st_terms].
-    rewrite gen_construct_axiom. cbn [st_label st_terms].
-    destruct (mem l incl_ && negb (mem l excl_)); [|reflexivity].
-    rewrite gen_supporting. destruct (supporting sguards_fixed cut [] sd l ts pf ants); reflexivity. }
+  assert (Hsup : forall ants l ts pf,
+            GenMM.supporting_database_for_provable cut sd (SP l ts pf) ants = supporting sguards_fixed cut [] sd l ts pf ants)
+    by (intros; apply gen_supporting).
   destruct st as [cs|vs|vs|l ty v|l ts|l ts|l ts pf|ss]; try reflexivity.
   - cbn [is_SC_b is_SV_b is_SD_b is_SF_b is_SE_b is_SP_b is_SB_b orb].
     destruct (match_axiom (SP l ts pf)) as [| |k] eqn:EM; [reflexivity| |reflexivity].
-    rewrite (Hprov eq_refl eq_refl). destruct (deconstruct_provable (SP l ts pf)) as [[[[ants l0] ts0] pf0]|]; [|reflexivity].
-    destruct (mem l0 incl_ && negb (mem l0 excl_)); [|reflexivity]. destruct (supporting _ _ _ _ _ _ _ _); reflexivity.
+    rewrite (gen_deconstruct_provable _ EM).
+    destruct (deconstruct_provable (SP l ts pf)) as [[[[ants l0] ts0] pf0]|]; [|reflexivity].
+    cbn [obind st_label st_terms]. rewrite ?gen_construct_axiom. cbn [st_label st_terms].
+    destruct (mem l0 incl_ && negb (mem l0 excl_)); [|reflexivity].
+    rewrite Hsup. destruct (supporting sguards_fixed cut [] sd l0 ts0 pf0 ants); reflexivity.
   - cbn [is_SC_b is_SV_b is_SD_b is_SF_b is_SE_b is_SP_b is_SB_b orb].
     destruct (match_axiom (SB ss)) as [| |k] eqn:EM; [reflexivity| |reflexivity].
-    rewrite (Hprov eq_refl eq_refl). destruct (deconstruct_provable (SB ss)) as [[[[ants l0] ts0] pf0]|]; [|reflexivity].
-    destruct (mem l0 incl_ && negb (mem l0 excl_)); [|reflexivity]. destruct (supporting _ _ _ _ _ _ _ _); reflexivity.
+    rewrite (gen_deconstruct_provable _ EM).
+    destruct (deconstruct_provable (SB ss)) as [[[[ants l0] ts0] pf0]|]; [|reflexivity].
+    cbn [obind st_label st_terms]. rewrite ?gen_construct_axiom. cbn [st_label st_terms].
+    destruct (mem l0 incl_ && negb (mem l0 excl_)); [|reflexivity].
+    rewrite Hsup. destruct (supporting sguards_fixed cut [] sd l0 ts0 pf0 ants); reflexivity.
 Qed.
 
 (* ================================================================== labels of a slice come from the database *)
